@@ -171,13 +171,19 @@ pub struct CheckResult {
 }
 
 pub fn verif_dir() -> String {
-    std::env::var("VERIF_DIR").unwrap_or_else(|_| "/verif".to_string())
+    match std::env::var("VERIF_DIR") {
+        Ok(s) if !s.trim().is_empty() => s,
+        _ => "/verif".to_string(),
+    }
 }
 
 /// Where evidence and replay files go (default: the verif dir). Sensitivity and determinism
 /// work points this elsewhere so that the committed evidence is never overwritten by it.
 pub fn out_dir() -> String {
-    std::env::var("VERIF_OUT").unwrap_or_else(|_| verif_dir())
+    match std::env::var("VERIF_OUT") {
+        Ok(s) if !s.trim().is_empty() => s,
+        _ => verif_dir(),
+    }
 }
 
 pub fn run_check(prop: &Prop, thorough: bool, verif_seed: u64, jobs: usize, scale: f64) -> CheckResult {
